@@ -85,6 +85,11 @@ def post(ctx, tie):
     """Counterexample search in the regenerated MODEL next to the one on the implementation: the `search` request
     lines (harness/c19/search.go, Hive/Model/SafeMathSearch.lean) enumerate the same boundary values in the same order on
     both sides; their answers are put side by side into the evidence, and into the replay files when a proof broke."""
+    bt = _broken_theorems(ctx)
+    if bt:
+        ctx.obligation_failures.append({"kind": "broken-theorems", "detail": bt})
+        ctx.log("proofs that broke: " + "; ".join(bt["first_failing"][:4]) + f" -> {len(bt['theorems_resting_on_them'])} C19 theorems rest on them, "
+                f"{len(bt['theorems_still_proved_for_this_tree'])} C19 theorems of other functions still proved for this tree")
     outdir = os.path.join(ctx.scratch, "out0")
     try:
         ops = open(os.path.join(outdir, "ops.txt")).read().split("\n")
@@ -111,11 +116,6 @@ def post(ctx, tie):
     ctx.notes.append(f"model search: {len(rows)} boundary enumerations run over the regenerated model and over the implementation; "
                      f"{sum(1 for r in rows if r[2].startswith('cex'))} found a counterexample in the model, "
                      f"{sum(1 for r in rows if r[1].startswith('cex'))} in the implementation")
-    bt = _broken_theorems(ctx)
-    if bt:
-        ctx.obligation_failures.append({"kind": "broken-theorems", "detail": bt})
-        ctx.log("proofs that broke: " + "; ".join(bt["first_failing"][:4]) + f" -> {len(bt['theorems_resting_on_them'])} C19 theorems rest on them, "
-                f"{len(bt['theorems_still_proved_for_this_tree'])} C19 theorems of other functions still proved for this tree")
     if hits:
         ctx.obligation_failures.append({"kind": "counterexample-search", "detail": {
             "what": "first counterexample of each boundary enumeration (`cex <number of counterexamples> <operands> got <answer> want <exact answer>`): "
@@ -141,7 +141,7 @@ SPEC = {
                  "C19_error_identity", "C19_sentinels_distinct", "C19_ierrors_wrappers", "C19_error_sites_cover"] +
                 [f"C19_{f}_{c}" for f in ("add", "sub", "mul", "div", "shl", "mulU64", "mulI64") for c in ("never_wraps", "never_spurious", "error_iff")] +
                 ["C19_mulDiv64_never_spurious", "C19_bitLen_spec", "C19_trailingZeros_spec", "C19_add64_sub64_spec", "C19_integer_constraint", "C19_signatures"],
-    "trusted_base": ["translator harness/tools/translate-safemath (go/ast -> Lean, ~1750 lines incl. the error-expression renderer; in-file helpers, constants, switch, for loops, math/bits), cross-checked on every run by executing the generated definitions against the real functions (2.8 M lines, exhaustive at 8 bit), by the shared boundary search and by the translator corpus harness/c19/trcorpus.go (functions in the parts of the subset safe_math.go does not use - helpers, loops, switch, tuples, math/bits - translated by the same tool and executed on both sides, 114 k lines)",
+    "trusted_base": ["translator harness/tools/translate-safemath (go/ast -> Lean, ~1900 lines incl. the error-expression renderer; in-file helpers, constants, switch, for loops, math/bits), cross-checked on every run by executing the generated definitions against the real functions (2.8 M lines, exhaustive at 8 bit), by the shared boundary search and by the translator corpus harness/c19/trcorpus.go (functions in the parts of the subset safe_math.go does not use - helpers, loops, switch, tuples, math/bits - translated by the same tool and executed on both sides, 114 k lines)",
                      "Go integer semantics Hive/Base/GoInt.lean + Hive/Model/SafeMathOps.lean (wrap-around, truncated division and remainder, shifts, & | ^ &^ and complement, bits.Mul64/Div64/Add64/Sub64/Len/LeadingZeros/TrailingZeros; specification theorems C19_wrap_spec / mul64_spec / div64_spec / bitLen_spec / trailingZeros_spec / add64_sub64_spec), validated against the raw Go operators exhaustively for 8-bit types and by samples for wider types",
                      "Go toolchain, compiled Lean driver"],
     "modelled": ["Go operators + - * / << >> & and conversions as Int arithmetic with two's-complement wrap (validated differentially)",
